@@ -117,7 +117,7 @@ PROPS = {
 
 NOT_APPLICABLE = {p: "check under construction in this round (claimed once its model, theorems and engine are committed)" for p in
                   ["C%02d" % i for i in range(1, 21)]}
-HOOK_COMMITS = ["c6f7867", "24f55f1"]
+HOOK_COMMITS = ["c6f7867", "24f55f1", "656796a"]
 
 PROPS["C16"] = {'assumptions': ['HKDF-SHA256 is injective on the secrets in use (collision resistance)',
                  'crypto/rand yields the 64 lowercase hex characters randomHexKey documents'],
@@ -289,3 +289,41 @@ PROPS["C09"] = {'assumptions': ['attribute names are ASCII; strings are NUL-free
              "the PelicanPlatform classad library: GetAttributes/Lookup/Expr.String list the ad's own attributes with names distinct up to case; its evaluator "
              '(EvaluateAttrString) is an arbitrary function parameter of the model; Redacted/Delete remove exactly the named attributes',
              'time (getCurrentUnixTime) is a parameter of the model, read back from the wire by the engine']}
+
+PROPS["C13"] = {'assumptions': ['a receive error of the frame layer is terminal (the connection is dropped)',
+                 'the ClassAd expression parser (PelicanPlatform/classad) and the Go standard library routines the text parsers are built from (strings, '
+                 'strconv, net/url, encoding/base64) terminate without panicking; they are exercised, not modelled'],
+ 'engines': ['decode'],
+ 'lean': 'CedarProps.C13',
+ 'level_note': 'Quantifier: every decoder state (any buffered bytes, any frames still to come, both string modes, key or no key) for the typed, ClassAd and '
+               'handshake-record readers; every wire byte string for the frame readers, the shared-port header, the session-info text and the crypto-state '
+               'blob. Allocation is counted in the model (buffer appends, make sizes, result growth, text builder) and bounded by 4x the bytes received (+ one '
+               'MaxMessageSize frame buffer at the frame layer); real allocation (runtime.MemStats) and stack are measured by the engine, not proved. Leaf '
+               'text parsers (ParseClaimID, ParseCondorPrivateInherit, ParseSinful, ParseHTCondorAddress, version.Parse, watch.Decode*) are compositions of Go '
+               'standard-library calls: exercised by the engine for panics and super-linear time, not modelled. exchangeSciToken (token size read inside an '
+               'established TLS session) is bounded by the fix but not driven by the engine. The model is of the library AFTER seven small fixes; the pre-fix '
+               'behaviours are kept as Legacy definitions with _fails theorems.',
+ 'level_text': 'total_typed / total_classad / total_handshake / total_framing / total_text_blob (no decoder entry point reaches a panicking operation, for all '
+               'inputs: negative / huge length and count fields, missing terminators, premature end-of-message, exhausted wire, secret markers anywhere), '
+               'linear_typed / linear_classad / linear_handshake / linear_framing (frames taken <= frames on the wire; loop rounds <= bytes of the message + '
+               '4, independent of any announced count; bytes allocated <= 4 x bytes received (+ one maximal frame buffer); constant stack in the multi-frame '
+               'reader), buffer_bound + cap_string / cap_classad / cap_handshake (a capped reader never asks the wire for more than max(cap, 8) bytes at once, '
+               'never holds a value longer than the cap, consumes <= cap + 8 bytes per string, returns <= cap bytes - secret marker branch included), '
+               'legacy_*_fails (each of the five pre-fix behaviours violates its clause, by witness): kernel-checked over the Decode model. Tied to the code '
+               'by the decode engine: the wire grammar of typed values / ClassAds / handshake records with one field mutated from the length catalogue, random '
+               'framing, truncation, missing EOM, both string modes, over a counting mock stream (loop rounds observable as IsEncrypted queries), a real '
+               'keyless stream and a real keyed stream; capped readers against 10-400x oversize; raw wire bytes through the real frame readers; claim-id text, '
+               'crypto-state blobs, shared-port headers; results, error classes, frames taken, rounds performed and the rest of the message compared op by op; '
+               'independently no panic / rounds <= input + 8 / allocation <= 64 x input + 1 MiB / capped readers take <= 16 x cap + 64 + one frame; '
+               'process-killing inputs (2^31..2^63 announced lengths, 400 000 empty partial frames) in a child process under RLIMIT_AS, GOMEMLIMIT and '
+               'SetMaxStack.',
+ 'oracle_engine': {'decode': 'decode'},
+ 'technique': 'Lean 4 theorems (conservation laws of ensureData; a potential argument: every loop round that continues is paid for by consumed bytes, so '
+              'rounds, frames and allocation are bounded by the input; cap bookkeeping as an invariant; Lean structural recursion / explicit fuel as the '
+              'termination obligation) + correspondence of the real decoders with the metered model on structured mutated inputs, with loop rounds made '
+              'observable through a counting stream, + implementation-side oracle incl. child-process runs for fatal inputs',
+ 'timeout': 5400,
+ 'trusted': ['frames reach the typed layer already opened (symbolic AEAD; a frame that does not authenticate is a receive error, C02)',
+             'the verdict of the external ClassAd expression parser is a parameter of the model (index of the first rejected expression), read back from the '
+             'real run',
+             'Go runtime: allocation and stack figures are measured with runtime.MemStats in the engine']}
